@@ -30,15 +30,9 @@ impl PieceSolver {
             .max()
             .unwrap_or(0);
 
-        let max_piece_length = pieces
-            .iter()
-            .map(|piece| piece.files.iter().map(|file| file.read_length).sum::<u64>())
-            .max()
-            .unwrap_or(0);
-
         let match_result = PieceMatchResult {
             source: Vec::with_capacity(max_files),
-            bytes: Vec::with_capacity(max_piece_length as usize)
+            bytes: Vec::new()
         };
 
         PieceSolver {
